@@ -2,7 +2,6 @@ package checks
 
 import (
 	"encoding/json"
-	"errors"
 	"fmt"
 	"io"
 	"net/http"
@@ -74,27 +73,6 @@ func c15OtherKind(v string) string {
 		}
 	}
 	return "error"
-}
-
-func c15PanicWith(value string) {
-	switch value {
-	case "string":
-		panic("MARK-string")
-	case "error":
-		panic(errors.New("MARK-error"))
-	case "runtime":
-		var m map[string]int
-		m["x"] = 1
-	case "struct":
-		panic(c15Struct{"MARK-struct"})
-	case "abort":
-		panic(http.ErrAbortHandler)
-	case "nil-error-pointer":
-		var e *c15NilErr
-		panic(error(e))
-	case "panicking-stringer":
-		panic(c15BadStringer{})
-	}
 }
 
 type c15World struct {
